@@ -67,6 +67,20 @@ def scenarios():
                                                       C('valid_against_schema', 'sample-jsons/event_invalid.json', 'json/event.json')], False, cache)
         add('valid_against-x-schema_valid-' + cache, [C('valid_against_schema', 'sample-jsons/performance.json', 'json/performance.json'),
                                                      C('schema_valid', 'json/event.json')], False, cache)
+    # functions without shared mutable state today: two threads must stay independent if a memo, a cached calculator
+    # object or a shared scratch attribute is ever introduced behind them
+    for warm in (False, True):
+        w = '-warm' if warm else '-first'
+        add('tyrving-hand-x-automatic' + w, [C('tyrving_score', 'F', 15, '200', '27.3'), C('tyrving_score', 'F', 15, '200', '27.31')], warm)
+        add('tyrving-x-tyrving' + w, [C('tyrving_score', 'M', 12, '1500', '4:32.00'), C('tyrving_score', 'F', 13, 'HJ', 1.45)], warm)
+        add('qkids-x-qkids' + w, [C('qkids_score', 'QuadKids Secondary', '100', 13.1), C('qkids_score', 'QKPRI', 'SLJ', '1.85')], warm)
+        add('bulgarian-x-bulgarian' + w, [C('bulgarian_score', 'U16', 'M', '100', 12.5), C('bulgarian_score', 'U16', 'F', 'LJ', 4.85)], warm)
+        add('normalize-x-normalize' + w, [C('normalize_event_code', 'dt 1.50 kg'), C('normalize_event_code', '100 H 84.0cm 8.50m')], warm)
+        add('checkperf-x-checkperf' + w, [C('check_performance_for_discipline', '800', '2.33'), C('check_performance_for_discipline', '100m', '12')], warm)
+        add('agegroup-x-agegroup' + w, [C('calc_uka_age_group', '2004-09-01', __import__('datetime').date(2025, 12, 31), 'XC'),
+                                       C('calc_uka_age_group', '1980-02-29', __import__('datetime').date(2015, 2, 28), 'TF')], warm)
+        add('sortkey-x-distance' + w, [C('discipline_sort_key', '4x100H'), C('get_distance', '6x5K')], warm)
+        add('specific-code-x-specific-code' + w, [C('get_specific_event_code', 'SP', 'M', 'SEN'), C('get_specific_event_code', 'SP', 'M', 'U11')], warm)
     # triples
     add('triple-athlon-first', [C('athlon_score', 'M', '100', 11.0), C('athlon_score', 'F', 'LJ', 5.5), C('athlon_performance_needed', 'M', 'HJ', 700)])
     add('triple-wma-first', [C('wma_age_factor', 'm', 50, '100', year=2023), C('wma_age_factor', 'f', 72, 'MAR', year=2023), C('wma_age_grade', 'm', 35, 'HJ', 2.0, year=2023)])
@@ -75,7 +89,10 @@ def scenarios():
     return S
 
 
-WARMUP = [C('athlon_score', 'F', '200', 25.0), C('athlon_performance_needed', 'M', 'LJ', 500), C('hungarian_score', 'M', 'OUT', '200', 21.0),
+WARMUP = [C('tyrving_score', 'F', 15, '200', '27.9'), C('tyrving_score', 'M', 13, 'HJ', 1.40), C('qkids_score', 'QKSEC', '100', 14.0),
+          C('bulgarian_score', 'U16', 'M', '100', 13.0), C('normalize_event_code', 'sp 4.00 kg'), C('check_performance_for_discipline', '800m', '2:10'),
+          C('get_distance', '4x100'), C('get_specific_event_code', 'DT', 'F', 'V50'),
+          C('athlon_score', 'F', '200', 25.0), C('athlon_performance_needed', 'M', 'LJ', 500), C('hungarian_score', 'M', 'OUT', '200', 21.0),
           C('sportshall_score', 'SP', '9.50'), C('wma_age_factor', 'f', 45, '1500', year=2023), C('wma_age_factor', 'm', 45, '1500', year=2015),
           C('wma_world_best', 'f', 'PV', year=2023), C('wma_athlon_age_factor', 'F', 50, '800'), C('wma_age_factor', 'm', 36, '7K', year=2023)]
 
